@@ -24,7 +24,7 @@ structure ColForm (σ : Type) where
   noTab : ∀ s, ok s → ∀ ch ∈ str s, ch ≠ '\t'
   lineOK : ∀ s, ok s → LineOK (str s)
   norefs : ∀ s, (bp s).refs = []
-  build : ∀ s, buildColumn [] (bp s) = .ok (col s)
+  build : ∀ s, ok s → buildColumn [] (bp s) = .ok (col s)
   render : ∀ (ap : Bool) (ts : List Table) (ti ci : Nat) (s : σ), ok s →
     Dbml.renderColumn { tables := ts, allowProps := ap } ti ci (col s) = .ok (str s)
 
@@ -251,11 +251,20 @@ theorem ColForm.parseDoc_table (F : ColForm σ) (ap : Bool) (tn : Str) (cs : Lis
   unfold document
   simp only [bind, pbind, hmany, skipNl_pastEnd c8 hp8, hse, pure, ppure]
 
-theorem ColForm.build_table (F : ColForm σ) (ap : Bool) (tn : Str) (cs : List σ) :
+theorem mapM_ok_map_mem {α β ε} (f : α → Except ε β) (g : α → β) :
+    ∀ l : List α, (∀ a ∈ l, f a = .ok (g a)) → l.mapM f = .ok (l.map g) := by
+  intro l
+  induction l with
+  | nil => intro _; rfl
+  | cons x xs ih =>
+    intro h
+    rw [List.mapM_cons, h x (by simp), ih (fun a ha => h a (by simp [ha]))]; rfl
+
+theorem ColForm.build_table (F : ColForm σ) (ap : Bool) (tn : Str) (cs : List σ) (hcs : F.allOK cs) :
     buildDatabase ap [Bp.Elem.table (F.tableBp tn cs)] = .ok { tables := [F.table tn cs], allowProps := ap } := by
   have hcols : (cs.map F.bp).mapM (buildColumn []) = .ok (cs.map F.col) := by
     rw [List.mapM_map]
-    exact mapM_ok_map _ _ F.build cs
+    exact mapM_ok_map_mem _ _ cs (fun s hs => F.build s (hcs s hs))
   have ht : buildTable [] (F.tableBp tn cs) = .ok (F.table tn cs) := by
     simp [buildTable, ColForm.tableBp, buildNote, hcols, ColForm.table, bind, Except.bind, pure, Except.pure]
   have hrefs : refBlueprints [Bp.Elem.table (F.tableBp tn cs)] = [] := by
@@ -331,7 +340,7 @@ theorem form_roundtrip (F : ColForm σ) (ap : Bool) (tn : Str) (cs : List σ)
   unfold Build.parse
   have hbom : removeBom (F.tableText tn cs) = F.tableText tn cs := by simp [removeBom, ColForm.tableText]
   rw [hbom, hp]
-  simp [F.build_table]
+  simp [F.build_table ap tn cs hcs]
 
 end C02
 end PyDBML
